@@ -235,6 +235,14 @@ Section LleModel.
   Definition local_centered_gram (k : nat) (kern : mat) (nb : nat -> nat) : mat :=
     read_lower (center_matrix k (local_gram kern nb)).
 
+  (* the same table with the means computed once (what is executed;
+     Lle_Proof_Ltsa.local_centered_gram_exec_ok) *)
+  Definition local_centered_gram_exec (k : nat) (kern : mat) (nb : nat -> nat) : list (list F) :=
+    let G := mof (mtab k k (local_gram kern nb)) in
+    let cm := vof (vtab k (colmean k G)) in
+    let g := grandmean k k G in
+    mtab k k (read_lower (fun i j => G i j + g - cm j - cm i)).
+
   (* ================= HLLE: hessian_weight_matrix ================= *)
   Definition hlle_dp (d : nat) : nat := (d * (d + 1) / 2)%nat.
   Definition hlle_ncols (d : nat) : nat := (1 + d + hlle_dp d)%nat.
